@@ -282,6 +282,46 @@ func errKind(e ssa.Value, at ssa.Instruction) string {
 			case "fmt.Errorf", "errors.New":
 				return "nonnil"
 			}
+			// a local closure or package helper that only builds an error: every
+			// return of it is itself a non-nil error
+			if len(sc.Blocks) > 0 && sc.Signature.Results().Len() == 1 && (sc.Parent() != nil || (sc.Pkg != nil && sc.Pkg.Pkg.Path() == targetPkgPath)) {
+				all, nr := true, 0
+				eachInstr(sc, func(ins ssa.Instruction) {
+					if ret, ok := ins.(*ssa.Return); ok && len(ret.Results) == 1 {
+						nr++
+						if _, isCall := ret.Results[0].(*ssa.Call); isCall && ret.Results[0] == ssa.Value(c) {
+							all = false
+						} else if errKindDepth(ret.Results[0], ret, 1) != "nonnil" {
+							all = false
+						}
+					}
+				})
+				if all && nr > 0 {
+					return "nonnil"
+				}
+			}
+		}
+	}
+	return "?"
+}
+
+// errKindDepth bounds the look into error-building helpers.
+func errKindDepth(e ssa.Value, at ssa.Instruction, depth int) string {
+	if depth > 2 {
+		return "?"
+	}
+	if isNilConst(e) {
+		return "nil"
+	}
+	if _, ok := e.(*ssa.MakeInterface); ok {
+		return "nonnil"
+	}
+	if c, ok := e.(*ssa.Call); ok {
+		if sc := c.Common().StaticCallee(); sc != nil {
+			switch fullName(sc) {
+			case "fmt.Errorf", "errors.New":
+				return "nonnil"
+			}
 		}
 	}
 	return "?"
